@@ -409,7 +409,16 @@ func (e *H2End) Do(op *H2Op) {
 			e.sawTableUpdate = false
 		}
 		e.pendingTable = append(e.pendingTable, tbl)
-		for _, s := range op.Settings {
+		// (the values of one frame are processed in order with no frame processing between them:
+		// of several values for one identifier only the last is ever in force)
+		last := map[http2.SettingID]int{}
+		for i, s := range op.Settings {
+			last[s.ID] = i
+		}
+		for i, s := range op.Settings {
+			if last[s.ID] != i {
+				continue
+			}
 			switch s.ID {
 			case http2.SettingInitialWindowSize:
 				e.advInit = append(e.advInit, int(s.Val))
@@ -623,7 +632,14 @@ func (e *H2End) onFrame(f http2.Frame, ln int) {
 					e.tableLimit = tbl
 				}
 				e.pendingTable = e.pendingTable[1:]
-				for _, s := range acked {
+				last := map[http2.SettingID]int{}
+				for i, s := range acked {
+					last[s.ID] = i
+				}
+				for i, s := range acked {
+					if last[s.ID] != i {
+						continue // only the last value of an identifier was ever advertised
+					}
 					switch s.ID {
 					case http2.SettingInitialWindowSize:
 						e.advInit = pruneUpTo(e.advInit, int(s.Val))
